@@ -77,8 +77,8 @@ pub fn spec_code(set: u8) -> u8 {
 // NOTE: all flags live in ONE static struct with a non-zero magic field. Separate `static mut X: usize = 0`
 // items were observed to alias, under Kani 0.68, with promoted constants of the same bytes (writing 1 to
 // such a static turned the shared zero-capacity constant of `Vec::new()` into 1).
-struct Stubs { magic: u64, io: bool, save_calls: usize, rec_distance: bool, exp_constant: f64, exp_rows: usize, provider: bool, writer_off: bool, counts_lemma: bool, entries: [(u64, u8); 32], aln_on: bool, aln: [[u8; 4]; 4] }
-static mut ST: Stubs = Stubs { magic: 0x5ca1_ab1e_0dd_ba11, io: false, save_calls: 0, rec_distance: false, exp_constant: -1.0, exp_rows: 0, provider: false, writer_off: false, counts_lemma: false, entries: [(7, b'A'); 32], aln_on: false, aln: [[b'-'; 4]; 4] };
+struct Stubs { magic: u64, io: bool, save_calls: usize, rec_distance: bool, exp_constant: f64, exp_rows: usize, provider: bool, writer_off: bool, counts_lemma: bool, entries: [(u64, u8); 32], aln_on: bool, aln: [[u8; 4]; 4], arr_on: bool, arr_n: [usize; 2], arr_cells: [[(u64, u8); 3]; 2], rec_on: bool, rec_names: [u8; 3], rec_nn: usize, rec_rows: usize, rec_kmers: [u64; 3], rec_cells: [[u8; 2]; 3] }
+static mut ST: Stubs = Stubs { magic: 0x5ca1_ab1e_0dd_ba11, io: false, save_calls: 0, rec_distance: false, exp_constant: -1.0, exp_rows: 0, provider: false, writer_off: false, counts_lemma: false, entries: [(7, b'A'); 32], aln_on: false, aln: [[b'-'; 4]; 4], arr_on: false, arr_n: [0; 2], arr_cells: [[(0, b'-'); 3]; 2], rec_on: false, rec_names: [0; 3], rec_nn: 0, rec_rows: 0, rec_kmers: [0; 3], rec_cells: [[0; 2]; 3] };
 pub fn stub_io(on: bool) { unsafe { ST.io = on; ST.save_calls = 0; } }
 pub fn stub_io_active() -> bool { unsafe { ST.magic == 0x5ca1_ab1e_0dd_ba11 && ST.io } }
 pub fn record_save() { unsafe { ST.save_calls += 1; } }
@@ -121,3 +121,20 @@ pub fn provided_alignment(tag: usize, out: &mut Vec<u8>) {
     let mut i = 0;
     while i < crate::verif_models::bounds::RCAP && i < 4 { if i < out.len() { unsafe { out[i] = ST.aln[s][i]; } } i += 1; }
 }
+/// Array provider standing in for `MergeSkaArray::load` (C07.wrap only; persistence is C09's subject and not encodable):
+/// the file named "<i>.skf" is a single-sample array (sample name "f<i>") with the k-mers/bases registered here
+pub fn array_provider(on: bool) { unsafe { ST.arr_on = on; } }
+pub fn array_provider_active() -> bool { unsafe { ST.arr_on } }
+pub fn provide_array(file: usize, n: usize, cells: [(u64, u8); 3]) { unsafe { ST.arr_n[file] = n; ST.arr_cells[file] = cells; } }
+pub fn provided_file_index(filename: &str) -> usize { let b = filename.as_bytes(); if b.len() > 0 && b[0] == b'1' { 1 } else { 0 } }
+pub fn provided_array_len(file: usize) -> usize { unsafe { ST.arr_n[file] } }
+pub fn provided_array_cell(file: usize, i: usize) -> (u64, u8) { unsafe { ST.arr_cells[file][i] } }
+/// Save recorder (C07.wrap): what `MergeSkaArray::save` is asked to write (first byte of every sample name, k-mers, cells)
+pub fn save_recorder(on: bool) { unsafe { ST.rec_on = on; } }
+pub fn save_recorder_active() -> bool { unsafe { ST.rec_on } }
+pub fn rec_dims(names: usize, rows: usize) { unsafe { ST.rec_nn = names; ST.rec_rows = rows; } }
+pub fn rec_name(i: usize, b: u8) { unsafe { ST.rec_names[i] = b; } }
+pub fn rec_cell(r: usize, c: usize, v: u8, kmer: u64) { unsafe { ST.rec_cells[r][c] = v; ST.rec_kmers[r] = kmer; } }
+pub fn recorded_dims() -> (usize, usize) { unsafe { (ST.rec_nn, ST.rec_rows) } }
+pub fn recorded_name(i: usize) -> u8 { unsafe { ST.rec_names[i] } }
+pub fn recorded_row(r: usize) -> (u64, [u8; 2]) { unsafe { (ST.rec_kmers[r], ST.rec_cells[r]) } }
